@@ -2323,7 +2323,7 @@ namespace Clipper2Lib {
             or2->owner = or1;
           }
           else
-            or2->owner = or1->owner;
+            or2->owner = or1; // a later split of or1 may still contain or2
 
           if (!or1->splits) or1->splits = new OutRecList();
           or1->splits->emplace_back(or2);
@@ -2336,8 +2336,22 @@ namespace Clipper2Lib {
         or2->pts = nullptr;
         if (using_polytree_)
         {
+          OutRec* or2_owner = or2->owner;
           SetOwner(or2, or1);
           MoveSplits(or2, or1); //#618
+          // or2's former owner may be the only link between or1 and
+          // its container, so make it (and then or1's former owners)
+          // reachable from or1
+          if (or2_owner && IsValidOwner(or1, or2_owner) &&
+            IsValidOwner(or2_owner, or1))
+          {
+            OutRec* or1_owner = or1->owner;
+            or1->owner = or2_owner;
+            OutRec* tail = or2_owner;
+            while (tail->owner) tail = tail->owner;
+            if (or1_owner && IsValidOwner(tail, or1_owner))
+              tail->owner = or1_owner;
+          }
         }
         else
           or2->owner = or1;
@@ -2956,10 +2970,19 @@ namespace Clipper2Lib {
       if (split->splits && CheckSplitOwner(outrec, split->splits))
         return true;
       else if (CheckBounds(split) &&
-        IsValidOwner(outrec, split) &&
         split->bounds.Contains(outrec->bounds) &&
         Path1InsidePath2(outrec->pts, split->pts))
       {
+        if (!IsValidOwner(outrec, split))
+        {
+          // split contains outrec, so the (tentative) owner chain of
+          // split that passes through outrec is wrong there: bypass
+          // outrec in that chain rather than reject split
+          if (split->bounds == outrec->bounds) continue;
+          OutRec* tmp = split;
+          while (tmp->owner != outrec) tmp = tmp->owner;
+          tmp->owner = outrec->owner;
+        }
         outrec->owner = split; //found in split
         return true;
       }
@@ -2974,6 +2997,9 @@ namespace Clipper2Lib {
 
     if (outrec->polypath || outrec->bounds.IsEmpty()) return;
 
+    // a contour split off outrec may itself contain outrec
+    if (outrec->splits) CheckSplitOwner(outrec, outrec->splits);
+
     while (outrec->owner)
     {
       if (outrec->owner->splits && CheckSplitOwner(outrec, outrec->owner->splits)) break;
@@ -2985,9 +3011,12 @@ namespace Clipper2Lib {
 
     if (outrec->owner)
     {
-      if (!outrec->owner->polypath)
-        RecursiveCheckOwners(outrec->owner, polypath);
-      outrec->polypath = outrec->owner->polypath->AddChild(outrec->path);
+      // nb: the recursive call may bypass outrec->owner
+      // in owner chains, including the one starting here
+      OutRec* owner = outrec->owner;
+      if (!owner->polypath)
+        RecursiveCheckOwners(owner, polypath);
+      outrec->polypath = owner->polypath->AddChild(outrec->path);
     }
     else
       outrec->polypath = polypath->AddChild(outrec->path);
